@@ -17,6 +17,7 @@ import Midgard.Spec.UnitsSI
 import Midgard.Proofs.C20Algebra
 import Midgard.Proofs.C20Lagrange
 import Midgard.Proofs.C20Dop
+import Midgard.Proofs.C20Deriv
 
 namespace Midgard.Props.C20
 open Midgard.Numeric Midgard.Generated.C20 Midgard.Proofs.C20
@@ -181,6 +182,61 @@ theorem lagrange_window (xs : List ℚ) (w k : ℕ) (hp : xs.Pairwise (· < ·))
     startIdx xs w x + w ≤ xs.length :=
   ⟨(startIdx_node xs w k hp hk hw hwn).1, (startIdx_node xs w k hp hk hw hwn).2, startIdx_add_le xs w x hwn⟩
 
+/-! ## `interpolate_with_derivative` (Lagrange interpolator) -/
+
+/-- the values returned are those of `interpolate` -/
+theorem derivative_values (xs : List ℚ) (rows : List (List ℚ)) (dim w : ℕ) (be srt : Bool) (s : ℚ)
+    (xnew : List ℚ) (dx : ℚ) (v d : List (List ℚ))
+    (h : lagrangeDeriv xs rows dim w be srt s xnew dx = .ok (v, d)) :
+    lagrange xs rows dim w be srt s xnew = .ok v := by
+  obtain ⟨_, _, h0, _⟩ := lagrangeDeriv_ok_form xs rows dim w be srt s xnew dx v d h
+  exact h0
+
+/-- the derivative returned is the central difference `(f(x+dx) - f(x-dx)) / (2dx)` of the interpolant `f` -/
+theorem derivative_is_central_difference (xs : List ℚ) (rows : List (List ℚ)) (dim w : ℕ) (be srt : Bool) (s : ℚ)
+    (xnew : List ℚ) (dx : ℚ) (v d : List (List ℚ))
+    (h : lagrangeDeriv xs rows dim w be srt s xnew dx = .ok (v, d)) :
+    ∃ hi lo, lagrange xs rows dim w be srt s (xnew.map (· + dx)) = .ok hi ∧
+      lagrange xs rows dim w be srt s (xnew.map (· - dx)) = .ok lo ∧
+      ∀ j c, j < xnew.length → c < dim →
+        (d.getD j []).getD c 0 = ((hi.getD j []).getD c 0 - (lo.getD j []).getD c 0) / (2 * dx) := by
+  obtain ⟨hi, lo, _, h1, h2, he⟩ := lagrangeDeriv_entry xs rows dim w be srt s xnew dx v d h
+  exact ⟨hi, lo, h1, h2, he⟩
+
+/-- for data on a polynomial of degree below the window size it is the central difference of that polynomial -/
+theorem derivative_polynomial (xs : List ℚ) (rows : List (List ℚ)) (dim w : ℕ) (be srt : Bool) (s : ℚ)
+    (xnew : List ℚ) (dx : ℚ) (v d : List (List ℚ))
+    (h : lagrangeDeriv xs rows dim w be srt s xnew dx = .ok (v, d)) (hs : s ≠ 0)
+    (c : ℕ) (hc : c < dim) (P : Polynomial ℚ) (hdeg : P.degree < (w : ℕ))
+    (hdata : ∀ i, i < xs.length → (rows.getD i []).getD c 0 = P.eval (xs.getD i 0))
+    (j : ℕ) (hj : j < xnew.length) :
+    (d.getD j []).getD c 0 = (P.eval (xnew.getD j 0 + dx) - P.eval (xnew.getD j 0 - dx)) / (2 * dx) :=
+  lagrangeDeriv_poly xs rows dim w be srt s xnew dx v d h hs c hc P hdeg hdata j hj
+
+/-- … hence the exact derivative `P'(x)` for data on a polynomial of degree ≤ 2 (lines and parabolas),
+for every window size, every step `dx ≠ 0`, every abscissa -/
+theorem derivative_exact_quadratic (xs : List ℚ) (rows : List (List ℚ)) (dim w : ℕ) (be srt : Bool) (s : ℚ)
+    (xnew : List ℚ) (dx : ℚ) (v d : List (List ℚ))
+    (h : lagrangeDeriv xs rows dim w be srt s xnew dx = .ok (v, d)) (hs : s ≠ 0) (hdx : dx ≠ 0)
+    (c : ℕ) (hc : c < dim) (P : Polynomial ℚ) (hdeg : P.degree ≤ 2)
+    (hdata : ∀ i, i < xs.length → (rows.getD i []).getD c 0 = P.eval (xs.getD i 0))
+    (j : ℕ) (hj : j < xnew.length) :
+    (d.getD j []).getD c 0 = (Polynomial.derivative P).eval (xnew.getD j 0) :=
+  lagrangeDeriv_quadratic xs rows dim w be srt s xnew dx v d h hs hdx c hc P hdeg hdata j hj
+
+/-- the derivative is linear in the data -/
+theorem derivative_linear (xs : List ℚ) (r₁ r₂ r₃ : List (List ℚ)) (dim w : ℕ) (be srt : Bool) (s : ℚ)
+    (xnew : List ℚ) (dx a b : ℚ) (v₁ v₂ v₃ d₁ d₂ d₃ : List (List ℚ))
+    (h₁ : lagrangeDeriv xs r₁ dim w be srt s xnew dx = .ok (v₁, d₁))
+    (h₂ : lagrangeDeriv xs r₂ dim w be srt s xnew dx = .ok (v₂, d₂))
+    (h₃ : lagrangeDeriv xs r₃ dim w be srt s xnew dx = .ok (v₃, d₃))
+    (c : ℕ) (hc : c < dim)
+    (hcomb : ∀ i, i < xs.length →
+      (r₃.getD i []).getD c 0 = a * (r₁.getD i []).getD c 0 + b * (r₂.getD i []).getD c 0)
+    (j : ℕ) (hj : j < xnew.length) :
+    (d₃.getD j []).getD c 0 = a * (d₁.getD j []).getD c 0 + b * (d₂.getD j []).getD c 0 :=
+  lagrangeDeriv_linear xs r₁ r₂ r₃ dim w be srt s xnew dx a b v₁ v₂ v₃ d₁ d₂ d₃ h₁ h₂ h₃ c hc hcomb j hj
+
 /-! ## Piecewise linear interpolation (`kind="linear"`: SciPy's `interp1d`, modelled — the tie is the
 correspondence; the other three SciPy-backed interpolators have no model and are checked by the oracle only) -/
 
@@ -290,6 +346,10 @@ example : dmsToDeg 3 ⟨true, 0⟩ 19 (3 / 2) = ⟨true, 2283 / 7200⟩ := by de
 example : lagrange [0, 1, 2, 3] [[0, 0], [1, 1], [4, 8], [9, 27]] 2 3 true false 2 [1 / 2, 2]
     = .ok [[1 / 4, -1 / 4], [4, 8]] := by decide +kernel
 example : lagrange [2, 0, 3, 1] [[4], [0], [9], [1]] 1 3 true false 5 [1 / 2] = .ok [[1 / 4]] := by decide +kernel
+example : lagrangeDeriv [0, 1, 2, 3, 4] [[1], [2], [5], [10], [17]] 1 3 true false 2 [1, 5 / 2] (1 / 2)
+    = .ok ([[2], [29 / 4]], [[2], [5]]) := by decide +kernel      -- y = x² + 1: y' = 2x
+example : lagrangeDeriv [0, 1, 2, 3, 4] [[1], [2], [5], [10], [17]] 1 3 true false 2 [1, 4] (1 / 2) = .error .above := by
+  decide +kernel
 example : lagrange [0, 1, 1, 3] [[0], [1], [4], [9]] 1 3 true false 2 [1 / 2] = .error .unsorted := by decide +kernel
 example : (computeDops [⟨1/2, 1/2, 1, 0⟩, ⟨1/2, 1/2, 0, 1⟩, ⟨1/2, 1/2, -1, 0⟩, ⟨0, 1, 1, 0⟩, ⟨3/5, 4/5, 0, -1⟩]).isSome = true := by
   decide +kernel
@@ -319,6 +379,11 @@ end Midgard.Props.C20
 #print axioms Midgard.Props.C20.lagrange_ndim
 #print axioms Midgard.Props.C20.lagrange_scale_invariant
 #print axioms Midgard.Props.C20.lagrange_window
+#print axioms Midgard.Props.C20.derivative_values
+#print axioms Midgard.Props.C20.derivative_is_central_difference
+#print axioms Midgard.Props.C20.derivative_polynomial
+#print axioms Midgard.Props.C20.derivative_exact_quadratic
+#print axioms Midgard.Props.C20.derivative_linear
 #print axioms Midgard.Props.C20.linear_nodes
 #print axioms Midgard.Props.C20.linear_perm_invariant
 #print axioms Midgard.Props.C20.linear_linear
